@@ -363,6 +363,11 @@ def _get_only_mach_data(data: List[DragDataPoint]) -> List[float]:
 """,
      "pure non-termination: a projectile moving backwards (elevation beyond vertical, or blown back by a head wind) is "
      "never tested against the height limits and falls for ever"),
+    ("c10-warnings-filter-overridden", "C10", TC,
+     "        it = 0  # iteration counter\n",
+     "        import warnings as _w\n        _w.simplefilter(\"once\")\n        it = 0  # iteration counter\n",
+     "the defect repaired by a fix: commit, re-seeded: every integration rewrites the process-wide warnings filter, so an "
+     "operation that warns behaves differently before and after the first computation when the user asked for errors"),
 ]
 
 
